@@ -6,6 +6,9 @@ V = os.path.dirname(os.path.abspath(__file__))
 
 # property -> (technique, level text, design ref)
 CLAIMED = {
+    "C01": ("static analysis: ownership/effect analysis over go/ssa (origin classification of every write into persistent types, reaching stores, parameter summaries over the module call graph) plus constructor, freeze/epoch and read-path reachability rules",
+            "Decides that no memory reachable from a published root/tree/trie is written in place anywhere in the module, that the constructors licensing in-place mutation copy, that iterators handed out inside a transaction freeze it, that the write transaction works on private copies, and that the read API reaches no persistent write and no blocking operation. A necessary condition of snapshot isolation on every path; not that queries compute the right result.",
+            "DESIGN.md §3.1, §4 C01"),
     "C05": ("static analysis: CFG dominance / lock-region / slice data-dependence rules over go/ssa of DB.WriteTxn, Commit, registerTable; who-may-call rule for the table locks",
             "Decides the structural half of writer serialisation: root loaded after the table locks, publish inside the root-mutex region merging unlocked positions and the length of the current root, locks released only after publish and notify, and only by Commit/Abort. A necessary condition, decided on every path of the anchored functions; not the mutex itself nor fairness.",
             "DESIGN.md §3.2, §4 C05"),
